@@ -52,6 +52,53 @@ pub(crate) fn unit_log(key: &[u8], nonce: &[u8], what: &'static str) {
     });
 }
 
+/// Diagnostic mode (used by the nonce monitor, C12): when an AEAD unit does not open under the key and nonce the
+/// specification prescribes, try the other keys this thread's decoders know about and the neighbouring counters.
+/// If one of them opens it, the unit is recorded under the (key, nonce) it was REALLY sealed with and decoding
+/// goes on, so that the monitor can name a reuse instead of merely seeing a decode failure. Off by default:
+/// every other check sees the strict decoders.
+#[derive(Default)]
+pub struct Diag {
+    keys: Vec<Vec<u8>>,
+    pub relocated: Vec<String>,
+}
+
+thread_local! {
+    static DIAG: RefCell<Option<Diag>> = const { RefCell::new(None) };
+}
+
+pub fn diag_start() {
+    DIAG.with(|d| *d.borrow_mut() = Some(Diag::default()));
+}
+
+pub fn diag_take() -> Vec<String> {
+    DIAG.with(|d| d.borrow_mut().take().map(|x| x.relocated).unwrap_or_default())
+}
+
+pub(crate) fn diag_key(key: &[u8]) {
+    DIAG.with(|d| {
+        if let Some(x) = d.borrow_mut().as_mut() {
+            if !x.keys.iter().any(|k| k == key) {
+                x.keys.push(key.to_vec());
+            }
+        }
+    });
+}
+
+pub(crate) fn diag_candidates(len: usize) -> Option<Vec<Vec<u8>>> {
+    DIAG.with(|d| d.borrow().as_ref().map(|x| x.keys.iter().filter(|k| k.len() == len).cloned().collect()))
+}
+
+pub(crate) fn diag_note(s: String) {
+    DIAG.with(|d| {
+        if let Some(x) = d.borrow_mut().as_mut() {
+            if x.relocated.len() < 16 {
+                x.relocated.push(s);
+            }
+        }
+    });
+}
+
 #[derive(Debug, Clone, PartialEq, Eq)]
 pub enum RefError {
     /// more input needed (not an error for stream decoders)
